@@ -11,6 +11,7 @@ import SqlcModel.Driver.L2Props
 import SqlcModel.Driver.C01
 import SqlcModel.Driver.C15
 import SqlcModel.Driver.C18
+import SqlcModel.Driver.C20
 open Lean Sqlc.Drv
 
 def dispatch (prop kind : String) (inp impl : Json) : Verdict :=
@@ -26,6 +27,7 @@ def dispatch (prop kind : String) (inp impl : Json) : Verdict :=
   | "C01" => c01 kind inp impl
   | "C15" => c15 kind inp impl
   | "C18" => c18 kind inp impl
+  | "C20" => c20 kind inp impl
   | "C02" => c02 kind inp impl
   | "C05" => c05 kind inp impl
   | "C06" => c06 kind inp impl
